@@ -14,6 +14,9 @@
      the theorems of props/C08.v quantify over.
    No proofs in this file. *)
 From Coq Require Import List NArith Bool Arith.
+From Coq Require String.
+Import String.StringSyntax.
+Delimit Scope string_scope with string.
 From V Require Import gen.Consts.
 Import ListNotations.
 Open Scope N_scope.
@@ -542,6 +545,28 @@ Definition arm_steps (pre : state) (res : put_result) (k : key) (t : rtype) (rng
 Definition arm_steps_wrong (pre : state) (fk : option key) (k : key) (t : rtype)
            (out : output) (mid post : state) : list step :=
   [(NotifyPut k t, out, mid); (SetFarthest fk, mkOut [] [], post)].
+
+(* which fetcher method an arm of handle_local_cmd calls is re-read from cmd.rs on every run
+   (gen/Consts.v: fetcher_arm_fetch_completed, fetcher_arm_put_calls) and turned into the operation *)
+Definition arm_method_op (m : String.string) (k : key) (t : rtype) : option op :=
+  if String.eqb m "notify_fetch_early_completed"%string then Some (NotifyEarly k t)
+  else if String.eqb m "notify_about_new_put"%string then Some (NotifyPut k t)
+  else None.
+(* the FetchCompleted arm: one call on the fetcher *)
+Definition fetch_completed_arm (k : key) (t : rtype) : option op :=
+  arm_method_op Consts.fetcher_arm_fetch_completed k t.
+(* the calls of the PutLocalRecord arm, in source order *)
+Definition put_arm_calls : list String.string := Consts.fetcher_arm_put_calls.
+Definition op_method (o : op) : String.string :=
+  match o with
+  | AddKeys _ _ _ => "add_keys"%string
+  | NextKeys => "next_keys_to_fetch"%string
+  | NotifyPut _ _ => "notify_about_new_put"%string
+  | NotifyEarly _ _ => "notify_fetch_early_completed"%string
+  | SetRange _ => "set_replication_distance_range"%string
+  | SetFarthest _ => "set_farthest_on_full"%string
+  | Advance _ => "(clock)"%string
+  end.
 
 Inductive item :=
 | IStep (st : step)
